@@ -2,7 +2,7 @@
 From Coq Require Import List Arith NArith.
 Import ListNotations.
 From Exmex.Model Require Import Base Lexer.
-From Exmex.Proofs Require Import LexerFacts.
+From Exmex.Proofs Require Import LexerFacts LongestMatch.
 Open Scope nat_scope.
 
 (* For EVERY operator table (so also tables whose names are prefixes of each other), data type and literal matcher. *)
@@ -49,6 +49,16 @@ Theorem C13_brace_is_one_var :
   = tokenize_go C tb is_literal fuel rest (TVar name :: rres) pending depth.
 Proof. exact @brace_is_one_var. Qed.
 
+(* the longest matching operator name wins: for EVERY table (names that are prefixes of each other, any number of
+   them) and every position of a text, the operator the tokenizer finds matches there, and no operator that matches
+   there has a longer name (`log2`/`log10` over `log`, `<=` over `<`, `atan2` over `atan`) *)
+Theorem C13_longest_operator_name_wins :
+  forall (tb : optable) (rest : str) (k : nat), find_ops tb rest = Some k ->
+  op_matches tb rest k = true /\
+  forall k', k' < length tb -> op_matches tb rest k' = true ->
+             length (repr (op_of tb k')) <= length (repr (op_of tb k)).
+Proof. exact find_ops_longest. Qed.
+
 (* non-vacuity on a concrete table with names that are prefixes of each other *)
 Definition ex_tb : optable :=
   [ {| repr := [43]%N; obin := Some {| prio := 0; comm := true |}; ounary := true; oconst := false |};
@@ -65,3 +75,4 @@ Print Assumptions C13_extended_name_is_variable.
 Print Assumptions C13_sign_unary_iff.
 Print Assumptions C13_numeric_literal.
 Print Assumptions C13_brace_is_one_var.
+Print Assumptions C13_longest_operator_name_wins.
